@@ -605,6 +605,21 @@ fn c16_case(it: &C16Item, st: &mut Stats, thorough: bool, frames_out: &std::sync
                     return;
                 }
             }
+            // a torn write of the whole record: every strict prefix is an error
+            if want.len() <= 200 {
+                for k in 0..want.len() {
+                    st.transitions += 1;
+                    st.validated += 1;
+                    match decode_at::<Zipped>(&want[..k], place) {
+                        Out::Err(_) => {}
+                        o => {
+                            bad(st, &format!("block-inside-a-record truncated-stream-not-rejected placement={place:?}"), json!({"cut_at": k, "of": want.len(), "result": o.class()}));
+                            return;
+                        }
+                    }
+                }
+                st.bump("block-inside-a-record:every-prefix-Err");
+            }
         }
     }
     if it.idx % 97 == 3 {
